@@ -6,6 +6,7 @@ package main
 // connection's own order and the real-time precedence the execution exhibited.
 
 import (
+	"time"
 	"fmt"
 	"sort"
 	"strconv"
@@ -21,6 +22,9 @@ var linSetup = [][]string{
 }
 
 type linScenario struct {
+	// sleepBefore[thread][command index]: virtual milliseconds the thread lets pass before it
+	// issues that command (a timer of the controlled clock: time only moves when nothing can run)
+	sleepBefore map[[2]int]int
 	name    string
 	setup   [][]string
 	threads [][][]string
@@ -94,7 +98,12 @@ func (ls *linScenario) body(x *Exec) {
 			}
 			i := i
 			verifrt.GoNamed(fmt.Sprintf("conn%d", i+1), func() {
-				for _, c := range ls.threads[i] {
+				for j, c := range ls.threads[i] {
+					if ms := ls.sleepBefore[[2]int{i, j}]; ms > 0 {
+						ch := verifrt.NewChan[struct{}](1)
+						verifrt.AddTimer(time.Duration(ms)*time.Millisecond, 0, func(time.Time) { verifrt.TrySend(ch, struct{}{}) })
+						verifrt.Recv(ch)
+					}
 					x.do(i+1, clients[i], subst(c, clients)...)
 				}
 			})
